@@ -40,7 +40,7 @@ func init() {
 // A failed lookup is an errored slot whatever its chain contains. The value fs.ErrNotExist itself
 // (== os.ErrNotExist) is not injected as a Get error: it is identical to the marker the loader
 // produces for an empty value, so no code could tell them apart, and no KV adapter returns it.
-const c28Quick = "LRQEXUPWC"
+const c28Quick = "LRQEZXUPWC"
 const c28Thorough = "LRQNEZXTUPWCD"
 
 type c28Case struct {
